@@ -180,6 +180,9 @@ def transfer_measures(ctx, rule='C02.R1', units=True):
 
 
 def run(ctx):
+    from .configtime import no_shared_mutable_defaults as _mutdef, selection_not_changed_in_place as _sel_inplace
+    _mutdef(ctx, 'C02.R3', classes=('Slicer', 'PlateSlicer'))
+    _sel_inplace(ctx, 'C02.R3')
     # contents are keyed by Substance objects: the key laws this property's bookkeeping relies on
     from .identity import identity_discipline as _identity
     _identity(ctx, 'C02.R1', classes=('Substance',), memoised=False)
